@@ -233,3 +233,27 @@ M("r1c-one-parse-not-restored", ["C14"], "break",
   [("yaep.c", "  parse_state_fin ();\n  grammar->one_parse_p = saved_one_parse_p;", "  parse_state_fin ();")], "grammar.one_parse_p")
 M("r1c-parse-writes-cost-flag", ["C14"], "break",
   [("yaep.c", "  if (grammar->cost_p)\n    /* We need all parses to choose the minimal one */\n    grammar->one_parse_p = FALSE;", "  if (grammar->cost_p)\n    {\n      /* We need all parses to choose the minimal one */\n      grammar->one_parse_p = FALSE;\n      grammar->lookahead_level = 1;\n    }")], "grammar.lookahead_level")
+
+# ---- handler safety (R1 exceptional edges), R3e, R3f ----------------------------------------------
+M("r3e-revert-F21", ["C17", "C14"], "break",
+  [("yaep.c", "  volatile int tok_init_p, parse_init_p;", "  int tok_init_p, parse_init_p;")], "yaep_parse/")
+M("r3e-sgrammar-flag-not-volatile", ["C17"], "break",
+  [("sgramm.y", "  volatile int created_p = FALSE;", "  int created_p = FALSE;")], "set_sgrammar/created_p")
+M("r2d-revert-F17", ["C17", "C14"], "break",
+  [("sgramm.y", "      if (created_p)\n	free_sgrammar ();\n      return code;", "      free_sgrammar ();\n      return code;")], "yaep_parse_grammar/")
+M("r2d-flag-set-too-early", ["C17", "C14"], "break",
+  [("sgramm.y", "  OS_CREATE (strans, g->alloc, 0);\n  created_p = TRUE;", "  created_p = TRUE;\n  OS_CREATE (strans, g->alloc, 0);")], "yaep_parse_grammar/strans")
+M("r2d-parse-flag-before-init", ["C17", "C14"], "break",
+  [("yaep.c", "  yaep_parse_init (toks_len);\n  parse_init_p = TRUE;", "  parse_init_p = TRUE;\n  yaep_parse_init (toks_len);")], "yaep_parse/")
+M("r2d-tok-fin-unguarded", ["C17", "C14"], "break",
+  [("yaep.c", "      if (tok_init_p)\n	tok_fin ();\n      return code;", "      tok_fin ();\n      return code;")], "yaep_parse/toks_vlo")
+M("r2d-create-dead-stores", ["C17", "C14"], "break",
+  [("yaep.c", "  grammar->symbs_ptr = NULL;\n  grammar->term_sets_ptr = NULL;\n  grammar->rules_ptr = NULL;\n", "")], "yaep_create_grammar/grammar->")
+M("r2d-pl-init-after-setjmp", ["C17", "C14"], "break",
+  [("yaep.c", "  pl_init ();\n  tok_init_p = parse_init_p = FALSE;", "  tok_init_p = parse_init_p = FALSE;"),
+   ("yaep.c", "  parse_init_p = TRUE;\n  pl_create ();", "  parse_init_p = TRUE;\n  pl_init ();\n  pl_create ();")], "yaep_parse/pl")
+M("r2d-benign-flags-order", ["C17", "C14"], "benign",
+  [("yaep.c", "  pl_init ();\n  tok_init_p = parse_init_p = FALSE;", "  tok_init_p = FALSE;\n  parse_init_p = FALSE;\n  pl_init ();")])
+M("r3f-realloc-frees-on-failure", ["C17"], "break",
+  [("allocate.c", "  result = allocator->realloc (ptr, size);\n  if ((result == NULL) && (size != 0))\n    allocator->alloc_error (allocator->userptr);",
+    "  result = allocator->realloc (ptr, size);\n  if ((result == NULL) && (size != 0))\n    {\n      allocator->free (ptr);\n      allocator->alloc_error (allocator->userptr);\n    }")], "yaep_realloc/calls-free")
